@@ -28,6 +28,9 @@ CHUNKINGS = {
     "freq_split": lambda da: da.chunk({"freq": 3}),
     "dir_split": lambda da: da.chunk({"dir": 3}),
     "freq_dir_split": lambda da: da.chunk({"time": 2, "freq": 2, "dir": 4}),
+    # uneven with the FIRST chunk holding more than half of the axis (a count of chunks taken as size // first chunk is 1 here)
+    "first_big": lambda da: da.chunk({"freq": (5, 2), "dir": (6, 2)}),
+    "last_one": lambda da: da.chunk({"freq": (6, 1), "dir": (7, 1), "time": (1, 2)}),
     # spectra one record per chunk, the positions that travel with them (non-index coordinates) lazily loaded as ONE chunk: what a
     # store with per-variable chunks hands over
     "coords_apart": lambda da: with_positions(da.chunk({"time": 1}), lazy=True),
@@ -168,7 +171,7 @@ def run(ctx):
         ctx.sample({"kind": "threaded schedule", "workers": workers, "threads_seen": nthreads, "first_events": events[:6]}, cap=2)
     # ---- chunking half
     ctx.rule = ("DaskSched: all interleavings of 3-4 tasks over 2 shapes on 3 workers; recorded threaded runs on 16 (2,4,16) workers; "
-                "chunking: every operation x 8 chunkings x schedulers (synchronous, threads 1/4/16). distinct_nontrivial = distinct "
+                "chunking: every operation x 10 chunkings x schedulers (synchronous, threads 1/4/16). distinct_nontrivial = distinct "
                 "(operation, chunking, scheduler).")
     ctx.exhaustive = True
     base = S.make(1)
@@ -180,7 +183,7 @@ def run(ctx):
         except Exception as ex:  # noqa
             raise MachineryError("in-memory %s failed: %s" % (op, ex))
         for cname, cf in CHUNKINGS.items():
-            if ctx.quick and cname in ("uneven", "freq_dir_split") and hash((op, cname, ctx.seed)) % 2:
+            if ctx.quick and cname in ("uneven", "freq_dir_split", "last_one") and hash((op, cname, ctx.seed)) % 2:
                 continue
             for sname, nw in scheds:
                 if ctx.quick and sname == "threads" and cname not in ("lead1", "all1", "freq_split"):
